@@ -201,12 +201,120 @@ fn run(h: &History, cx: &mut Cx) -> CaseResult {
     Ok(())
 }
 
+/// Calls `action` once, just before the `k`-th write under `d/` (0-based).
+struct AtBlockWrite {
+    k: usize,
+    seen: std::sync::atomic::AtomicUsize,
+    action: std::sync::Mutex<Option<Box<dyn FnOnce() + Send>>>,
+}
+
+impl conserve::transport::verif::Interceptor for AtBlockWrite {
+    fn before(&self, call: &conserve::transport::verif::Call<'_>) -> conserve::transport::verif::Action {
+        if call.verb == conserve::transport::record::Verb::Write && call.path.starts_with("d/") {
+            let n = self.seen.fetch_add(1, std::sync::atomic::Ordering::SeqCst);
+            if n == self.k {
+                if let Some(f) = self.action.lock().unwrap().take() {
+                    f();
+                }
+            }
+        }
+        conserve::transport::verif::Action::Proceed
+    }
+}
+
+/// A file rewritten in place (same length, other content, later mtime) at every possible
+/// block write of a backup; then the source rests and a second backup is made. The first
+/// version may hold the old or the new file (or a mixture: it was written to while read);
+/// the second one, made from a source at rest, must restore to exactly that source, and so
+/// must "latest". Every other file of the first version restores exactly as well.
+fn rewritten_during_backup(cx: &mut Cx) -> CaseResult {
+    use crate::tree::{Kind, Meta, Node, Tree};
+    let m = crate::probes::plain_meta();
+    let mut t = Tree::empty_root(Meta { mode: 0o755, ..m });
+    for (name, pool, len) in [("a-small", 2u8, 40u32), ("big", 3, 4500), ("c-small", 4, 60), ("m-big", 5, 2000), ("z-small", 6, 10)] {
+        t.0.insert(format!("/{name}"), Node { kind: Kind::File { pool, len }, meta: m });
+    }
+    let o = ops::Opts { hunk: 3, block: 1000, cap: 100 };
+    let mut evals = 0u64;
+    for victim in ["/big", "/m-big"] {
+        for k in 0..9usize {
+            crate::engine::heartbeat();
+            let sub = cx.dir("rewrite");
+            crate::engine::force_remove(&sub);
+            std::fs::create_dir_all(sub.join("r")).unwrap();
+            let src = sub.join("src");
+            let arch = sub.join("arch");
+            tree::materialise(&t, &src);
+            ensure!(ops::create_archive(&arch).clean(), "C02/create", "probe");
+            let mut t2 = t.clone();
+            let (len, new_pool) = match &t.0[victim].kind {
+                Kind::File { pool, len } => (*len, pool + 2),
+                _ => unreachable!(),
+            };
+            t2.0.get_mut(victim).unwrap().kind = Kind::File { pool: new_pool, len };
+            t2.0.get_mut(victim).unwrap().meta.mtime_s += 10;
+            let fp = tree::fs_path(&src, victim);
+            let bytes = tree::content_bytes(new_pool, len);
+            let mt = t2.0[victim].meta.mtime_s;
+            let root = src.clone();
+            let root_meta = t.0["/"].meta;
+            let hook: ops::Hook = Some(std::sync::Arc::new(AtBlockWrite {
+                k,
+                seen: Default::default(),
+                action: std::sync::Mutex::new(Some(Box::new(move || {
+                    use std::io::{Seek, Write};
+                    let mut f = std::fs::OpenOptions::new().write(true).open(&fp).unwrap();
+                    f.seek(std::io::SeekFrom::Start(0)).unwrap();
+                    f.write_all(&bytes).unwrap();
+                    drop(f);
+                    tree::set_mtime(&fp, mt, 0);
+                    tree::set_mtime(&root, root_meta.mtime_s, root_meta.mtime_ns);
+                }))),
+            }));
+            let b1 = ops::backup(&arch, &hook, &src, o, &[]);
+            ensure!(b1.panic.is_none() && b1.result.is_ok(), "C02/probe-rewritten-during-backup/backup", "{}", b1.describe());
+            let b2 = ops::backup(&arch, &None, &src, o, &[]);
+            ensure!(!ops::backup_reported_error(&b2), "C02/probe-rewritten-during-backup/backup", "second: {}", b2.describe());
+            // the source at rest is t2 if the rewrite happened (k within the backup's writes), else t
+            let now = tree::snapshot(&src);
+            for (sel, what) in [(Sel::Band(1), "version"), (Sel::LatestClosed, "latest")] {
+                let dest = sub.join("r").join(what);
+                let r = ops::restore(&arch, &None, &dest, &sel, None, &[], false);
+                ensure!(r.clean(), format!("C02/{what}/restore-error/probe-rewritten-during-backup"), "{victim} rewritten at block write {k}: {}", r.describe());
+                if let Some((field, msg)) = tree::first_diff(&now, &tree::snapshot(&dest), CmpOpts::restore()) {
+                    fail!(
+                        format!("C02/{what}/restore-diff/{field}/probe-rewritten-during-backup"),
+                        "{victim} was rewritten in place (same length, later mtime) at block write {k} of the first backup; the second backup was made from the source at rest and does not restore to it: {msg}"
+                    );
+                }
+            }
+            // the first version: everything but the rewritten file exactly
+            let dest = sub.join("r").join("first");
+            let r = ops::restore(&arch, &None, &dest, &Sel::Band(0), None, &[], false);
+            ensure!(r.panic.is_none() && r.result.is_ok(), "C02/probe-rewritten-during-backup/restore-first", "{}", r.describe());
+            let mut want = tree::expected(&t);
+            let mut got = tree::snapshot(&dest);
+            want.remove(victim);
+            got.remove(victim);
+            if let Some((field, msg)) = tree::first_diff(&want, &got, CmpOpts::restore()) {
+                fail!(format!("C02/version/restore-diff/{field}/probe-rewritten-during-backup/other-file"), "{victim} rewritten at block write {k}: {msg}");
+            }
+            evals += 1;
+            crate::engine::force_remove(&sub);
+        }
+    }
+    cx.add_evals(evals);
+    cx.inner_nontrivial += 1;
+    Ok(())
+}
+
 /// Scale probe (see probes.rs): two versions of a 10 012-file tree written with one entry
 /// per index hunk (a second index sub-directory); both must keep restoring exactly.
 fn enumerate(_tier: Tier, idx: u32, of: u32, cx: &mut Cx) -> CaseResult {
     if !crate::probes::mine(idx, of) {
         return Ok(());
     }
+    rewritten_during_backup(cx)?;
     let (opts, tree) = crate::probes::many_hunks_tree(10_012);
     let sub = cx.dir("many-hunks");
     std::fs::create_dir_all(sub.join("r")).unwrap();
